@@ -142,6 +142,8 @@ DESC = {
     'C15-6': ('StartProportional: a given pwm_min overrides the computed minimum', 'pwm_min supplied together with a non-null computed minimum'),
     'C16-5': ('threshold converted once and cached as a bare number', 'the unit of the sensed quantity changes during the life of the StopCondition'),
     'C16-6': ('stop check tested with `is True`', 'numpy-typed values in the simulation (numpy.bool_ comparison results)'),
+    'C07-5': ('DCMotor converts the no-load speed once, to the unit of the first rotor speed it sees', 'initial speed not in rad/s and a self-locking lock (which substitutes 0 rad/s) followed by a release'),
+    'C07-6': ('sin / cos / tan with a non-default frequency skip the conversion to radians', 'a load function calling angular_position.sin(frequency=...) with the position not in rad'),
 }
 
 
